@@ -1067,10 +1067,15 @@ sexp sexp_length_op (sexp ctx, sexp self, sexp_sint_t n, sexp ls1) {
   return sexp_make_fixnum(res + (sexp_pairp(ls2) ? 1 : 0));
 }
 
-sexp sexp_equalp_bound (sexp ctx, sexp self, sexp_sint_t n, sexp a, sexp b, sexp depth, sexp bound) {
+/* The recursion is limited to depth nested non-tail slots and bound
+   objects.  When a limit is reached the remaining bound is returned,
+   and the objects are not known to differ.  With a todo list, a pair of
+   objects met at the depth limit is queued there, to be compared by a
+   later call with a fresh depth, instead of being skipped. */
+static sexp sexp_equalp_rec (sexp ctx, sexp self, sexp_sint_t n, sexp a, sexp b, sexp depth, sexp bound, sexp *todo) {
   sexp_uint_t left_size, right_size;
   sexp_sint_t i, len;
-  sexp t, *p, *q, depth2;
+  sexp t, *p, *q, depth2, tmp;
   char *p_left, *p_right, *q_left, *q_right;
 
  loop:
@@ -1090,8 +1095,22 @@ sexp sexp_equalp_bound (sexp ctx, sexp self, sexp_sint_t n, sexp a, sexp b, sexp
     return sexp_flonum_eqv(a, b) ? bound : SEXP_FALSE;
 #endif
   /* check limits */
-  if (sexp_unbox_fixnum(bound) < 0 || sexp_unbox_fixnum(depth) < 0)
+  if (sexp_unbox_fixnum(bound) < 0)
     return bound;
+  if (sexp_unbox_fixnum(depth) < 0) {
+    if (todo) {
+      tmp = sexp_cons(ctx, SEXP_FALSE, *todo);
+      if (!sexp_exceptionp(tmp)) {
+        *todo = tmp;
+        tmp = sexp_cons(ctx, a, b);
+        if (sexp_exceptionp(tmp))
+          *todo = sexp_cdr(*todo);
+        else
+          sexp_car(*todo) = tmp;
+      }
+    }
+    return bound;
+  }
   depth2 = sexp_fx_sub(depth, SEXP_ONE);
   bound = sexp_fx_sub(bound, SEXP_ONE);
   t = sexp_object_type(ctx, a);
@@ -1128,7 +1147,7 @@ sexp sexp_equalp_bound (sexp ctx, sexp self, sexp_sint_t n, sexp a, sexp b, sexp
       }
     }
     for (i=0; i<len-1; i++) {
-      bound = sexp_equalp_bound(ctx, self, n, p[i], q[i], depth2, bound);
+      bound = sexp_equalp_rec(ctx, self, n, p[i], q[i], depth2, bound, todo);
       if (sexp_not(bound)) return SEXP_FALSE;
     }
     /* tail-recurse on the last value (same depth) */
@@ -1137,11 +1156,28 @@ sexp sexp_equalp_bound (sexp ctx, sexp self, sexp_sint_t n, sexp a, sexp b, sexp
   return bound;
 }
 
+sexp sexp_equalp_bound (sexp ctx, sexp self, sexp_sint_t n, sexp a, sexp b, sexp depth, sexp bound) {
+  return sexp_equalp_rec(ctx, self, n, a, b, depth, bound, NULL);
+}
+
 sexp sexp_equalp_op (sexp ctx, sexp self, sexp_sint_t n, sexp a, sexp b) {
-  return sexp_make_boolean(
-    sexp_truep(sexp_equalp_bound(ctx, self, n, a, b,
-                                 sexp_make_fixnum(SEXP_DEFAULT_EQUAL_DEPTH),
-                                 sexp_make_fixnum(SEXP_DEFAULT_EQUAL_BOUND))));
+  sexp res;
+  sexp_gc_var2(todo, next);
+  sexp_gc_preserve2(ctx, todo, next);
+  todo = SEXP_NULL;
+  res = sexp_equalp_rec(ctx, self, n, a, b,
+                        sexp_make_fixnum(SEXP_DEFAULT_EQUAL_DEPTH),
+                        sexp_make_fixnum(SEXP_DEFAULT_EQUAL_BOUND), &todo);
+  /* data nested deeper than the recursion limit: go on with the
+     objects met at the limit, sharing the same bound */
+  while (sexp_truep(res) && sexp_pairp(todo)) {
+    next = sexp_car(todo);
+    todo = sexp_cdr(todo);
+    res = sexp_equalp_rec(ctx, self, n, sexp_car(next), sexp_cdr(next),
+                          sexp_make_fixnum(SEXP_DEFAULT_EQUAL_DEPTH), res, &todo);
+  }
+  sexp_gc_release2(ctx);
+  return sexp_make_boolean(sexp_truep(res));
 }
 
 /********************* strings, symbols, vectors **********************/
